@@ -245,4 +245,9 @@ theorem ghost_revives_frequent (q : TwoQ κ ν) (k : κ) (v old : ν) (h : q.Inv
 /-- non-vacuity: at quota, a brand-new key takes its victim from recent, a ghost hit from frequent -/
 example : TwoQSpec.fromRecent [(1, 1), (2, 2)] [(3, 3)] 2 true = true ∧
           TwoQSpec.fromRecent [(1, 1), (2, 2)] [(3, (3 : Nat))] 2 false = false := by decide
+
+/-- non-vacuity of `Inv`: a 2Q state with recent over quota and a ghost -/
+example : ({ size := 3, rs := 1, recent := ⟨3, [(1, 10), (5, 50)], false⟩, frequent := ⟨3, [(2, 20)], false⟩,
+             ghost := ⟨2, [(3, 30)], false⟩ } : TwoQ Nat Nat).Inv := by
+  constructor <;> decide
 end C08
